@@ -1,5 +1,6 @@
 import Gms.Driver.Proto
 import Gms.Model.RangeMap
+import Gms.Model.RangeMapMem
 import Gms.Generated.C30
 open Gms.Proto Gms.RangeMap
 
@@ -143,8 +144,119 @@ def dblkStep (cs : Cs) (ln : Nat) (a : BlkAcc) (v : Nat) : BlkAcc :=
 
 def accStr (n : Nat) (h : UInt64) : String := "n=" ++ toString n ++ " h=" ++ hex64 h
 
+/-! ### Batches (results kept across calls)
+
+Every call of a batch is evaluated by the Impl model and by the Spec as a value (`Res`); where the
+values live is decided by the memory model `Gms/Model/RangeMapMem.lean`, run here under
+`Alloc.fresh` — the allocation discipline of the code (`Gms.C30.facts_match`: `outputWrites_*`,
+`packageVars`, `structFields`). `Gms.C30.batch_keep_independent` / `batch_edit_independent` prove that
+under `fresh` what the caller reads — at the end of the batch or at once, whatever it scribbles on — are
+those values; the driver nevertheless *runs* the machine. `par` (calls dealt to concurrent goroutines)
+is the `keep` machine: calls are atomic in the model and the theorem holds for every order. -/
+
+/-- One call of a batch: (is a rune operation, input, Impl value, Spec value, region). -/
+structure BSub where
+  rune : Bool
+  key : List Nat
+  impl : Res
+  spec : Res
+  region : String
+
+def optRes : Option (List Nat) → Res
+  | some b => .ok b
+  | none => .fail
+
+def subObs (rune : Bool) (r : Res) : String :=
+  if rune then (match r with | .ok b => runeStr (some b) | .fail => runeStr none | .crash => "crash") else resStr r
+
+def evalSub (x : Sexp) : Option BSub :=
+  match x with
+  | Sexp.list (Sexp.atom op :: Sexp.atom name :: args) =>
+    match findCs name, args.mapM Sexp.bytes? with
+    | some cs, some bs =>
+      let bs := bs.map nats
+      match op, bs, cs with
+      | "dec", [s], .native => some ⟨false, s, .ok s, .ok s, "-"⟩
+      | "enc", [s, _], .native => some ⟨false, s, .ok s, .ok s, "-"⟩
+      | "rep", [s], .native => some ⟨false, s, .ok s, .ok s, "-"⟩
+      | "erune", [s], .native => some ⟨true, s, .ok s, .ok s, "-"⟩
+      | "drune", [s], .native => some ⟨true, s, .ok s, .ok s, "-"⟩
+      | "dec", [s], .rm t => some ⟨false, s, decodeI t s, decode t s, "decode_unguarded"⟩
+      | "enc", [s, extra], .rm t => some ⟨false, s, encodeI t s extra, encodeSpec t s, encRegion t s⟩
+      | "rep", [s], .rm t => some ⟨false, s, replace t s, replaceSpec t s, repRegion t s⟩
+      | "erune", [s], .rm t => some ⟨true, s, optRes (encodeRune t s), optRes (encodeRuneSpec t s), "encode_overflow_unit"⟩
+      | "drune", [s], .rm t => some ⟨true, s, optRes (decodeRune t s), optRes (decodeRune t s), "-"⟩
+      | _, _, _ => none
+    | _, _ => none
+  | _ => none
+
+def joinBar (xs : List String) : String := "|".intercalate xs
+
+/-- Run a batch through the memory machine (`fresh`). Inputs live in buffers `0 … n-1`. -/
+def runBatch (mode : String) (subs : List BSub) (val : BSub → Res) : List Res :=
+  let m : Mem := { heap := subs.map (·.key) }
+  if mode == "edit" then
+    observeEager .fresh 0x55 ((keepBatch 0xAA 0 (subs.map fun s => (s.key, val s)))) m
+  else
+    observeLate .fresh (keepBatch 0xAA 0 (subs.map fun s => (s.key, val s))) m
+
+def handleSeq (mode : String) (items : List Sexp) : String :=
+  match items.mapM evalSub with
+  | none => answer "bad-case"
+  | some subs =>
+    let obs := fun (val : BSub → Res) =>
+      joinBar ((subs.zip (runBatch mode subs val)).map fun (s, r) => subObs s.rune r)
+    let region := match subs.find? (fun s => s.impl != s.spec) with
+      | some s => s.region
+      | none => "-"
+    ans (obs (·.impl)) (obs (·.spec)) region
+
+/-- `SELECT _cs1 x'…', _cs2 x'…', …`: one column per literal; an undecodable literal is an error. -/
+def handleIntros (items : List Sexp) : String :=
+  let one := fun (x : Sexp) => match x with
+    | Sexp.list [Sexp.atom name, b] =>
+      match findCs name, b.bytes? with
+      | some (.rm t), some b => some (decodeI t (nats b), decode t (nats b))
+      | some .native, some b => some (.ok (nats b), .ok (nats b))
+      | _, _ => none
+    | _ => none
+  match items.mapM one with
+  | none => answer "bad-case"
+  | some rs =>
+    let row := fun (xs : List Res) =>
+      if xs.all (fun r => match r with | .ok _ => true | _ => false) then joinBar (xs.map resStr)
+      else if xs.any (· == .crash) then "crash" else "fail"
+    ans (row (rs.map (·.1))) (row (rs.map (·.2))) "decode_unguarded"
+
+/-- Well-formed UTF-8 (Go's `utf8.Valid`), by `utf8Len`. -/
+def utf8Valid : Nat → List Nat → Bool
+  | 0, _ => false
+  | _, [] => true
+  | fuel + 1, b :: rest =>
+    if b < 0x80 then utf8Valid fuel rest
+    else
+      let n := utf8Len (b :: rest)
+      if n ≤ 1 then false else utf8Valid fuel ((b :: rest).drop n)
+
+/-- Multi-row INSERT of binary literals (none of them valid UTF-8, the harness's envelope) into a
+column of the character set: each is decoded when it is stored. -/
+def handleRows (name : String) (vals : List Sexp) : String :=
+  match findCs name, vals.mapM Sexp.bytes? with
+  | some (.rm t), some bs =>
+    let bs := bs.map nats
+    if bs.any (fun b => utf8Valid (b.length + 1) b) then answer "outside-envelope"
+    else
+      let row := fun (xs : List Res) =>
+        if xs.all (fun r => match r with | .ok _ => true | _ => false) then joinBar (xs.map resStr)
+        else "outside-envelope"
+      ans (row (bs.map (decodeI t))) (row (bs.map (decode t))) "decode_unguarded"
+  | _, _ => answer "bad-case"
+
 def handle (p : List Sexp) : String :=
   match p with
+  | [Sexp.list (Sexp.atom "seq" :: Sexp.atom mode :: items)] => handleSeq mode items
+  | [Sexp.list (Sexp.atom "sqlintros" :: items)] => handleIntros items
+  | [Sexp.list (Sexp.atom "sqlrows" :: Sexp.atom name :: vals)] => handleRows name vals
   | [Sexp.list (Sexp.atom op :: Sexp.atom name :: args)] =>
     match findCs name with
     | none => answer "unknown-charset"
